@@ -1,4 +1,148 @@
 import Model
+import Proofs.C07
+
+/-
+  C07 — keys do what the keymap says on every history and never crash the UI.
+  `Ui.update` transcribes `State.Update` branch by branch over the item model; background loads
+  run to completion inside the step ("once background loads have settled").
+  Property theorems only; helper lemmas live in Proofs/C07.lean.
+-/
+
 namespace C07
-theorem placeholder : True := trivial
+open Ui Pub
+
+/-- (1) No key sequence — link 0, over-long numbers, acting on an empty page, arbitrary bytes —
+    panics: from any state satisfying the invariant, every key yields a state satisfying it. -/
+theorem update_no_panic (w : World) (s : State) (k : Nat) (h : Inv s) :
+    ∃ s', update w s k = .ok s' ∧ Inv s' := by
+  exact update_inv w s k h
+
+/-- The state after start-up satisfies the invariant, whatever the world serves. -/
+theorem start_inv (w : World) (context : Nat) (arg : Str) :
+    ∃ s, start w context arg = .ok s ∧ Inv s ∧ s.mode = .normal := by
+  exact start_aux w context arg
+
+/-- Hence every key history from start-up runs without panic. -/
+theorem run_no_panic (w : World) (context : Nat) (arg : Str) (keys : List Nat) :
+    ∃ s0 s, start w context arg = .ok s0 ∧ run w s0 keys = .ok s ∧ Inv s := by
+  obtain ⟨s0, e0, i0, _⟩ := start_aux w context arg
+  obtain ⟨s, e, i⟩ := run_inv w keys s0 i0
+  exact ⟨s0, s, e0, e, i⟩
+
+/-! ### The keymap (normal mode) -/
+
+/-- Esc cancels whatever was being typed. -/
+theorem esc_cancels (w : World) (s : State) (h : s.mode ≠ .loading) :
+    update w s 27 = .ok { s with buffer := [], mode := .normal } := by
+  unfold update
+  simp [h]
+
+/-- `j` / `k` move the cursor one item within the thread, staying within bounds, and never
+    change the page, the history or the mode. -/
+theorem j_moves_down (w : World) (s s' : State) (page : Ui.Page) (hm : s.mode = .normal)
+    (hp : History.current s.hist = .ok page) (hs : update w s 'j'.toNat = .ok s') :
+    ∃ page', History.current s'.hist = .ok page' ∧
+      page'.feed.index = (if Feed.contains page.feed 1 then page.feed.index + 1 else page.feed.index) ∧
+      s'.hist.index = s.hist.index ∧ s'.hist.elements.length = s.hist.elements.length ∧ s'.mode = .normal := by
+  rw [update_normal w s _ hm (by decide) (by decide) (by decide) (by decide), keySwitch_j] at hs
+  obtain ⟨p', e1, e2, e3, e4, e5⟩ := move_aux w s s' page Feed.moveDown hp hs
+  exact ⟨p', e1, by rw [e2, moveDown_index], e3, e4, by rw [e5, hm]⟩
+
+theorem k_moves_up (w : World) (s s' : State) (page : Ui.Page) (hm : s.mode = .normal)
+    (hp : History.current s.hist = .ok page) (hs : update w s 'k'.toNat = .ok s') :
+    ∃ page', History.current s'.hist = .ok page' ∧
+      page'.feed.index = (if Feed.contains page.feed (-1) then page.feed.index - 1 else page.feed.index) ∧
+      s'.hist.index = s.hist.index ∧ s'.hist.elements.length = s.hist.elements.length ∧ s'.mode = .normal := by
+  rw [update_normal w s _ hm (by decide) (by decide) (by decide) (by decide), keySwitch_k] at hs
+  obtain ⟨p', e1, e2, e3, e4, e5⟩ := move_aux w s s' page Feed.moveUp hp hs
+  exact ⟨p', e1, by rw [e2, moveUp_index], e3, e4, by rw [e5, hm]⟩
+
+/-- `g` returns to the opened item (position 0) whenever it exists. -/
+theorem g_returns (w : World) (s s' : State) (page : Ui.Page) (hm : s.mode = .normal)
+    (hp : History.current s.hist = .ok page) (hs : update w s 'g'.toNat = .ok s') :
+    ∃ page', History.current s'.hist = .ok page' ∧
+      page'.feed.index = (if Feed.contains page.feed (-page.feed.index) then 0 else page.feed.index) := by
+  rw [update_normal w s _ hm (by decide) (by decide) (by decide) (by decide), keySwitch_g,
+    withFeed_spec s _ page hp] at hs
+  cases hs
+  exact ⟨_, current_setCurrent s _ (current_lt _ _ hp), moveToCenter_index page.feed⟩
+
+/-- `h` / `l` walk the browser history and saturate at its ends; nothing else changes. -/
+theorem h_l_walk (w : World) (s : State) (hm : s.mode = .normal) :
+    update w s 'h'.toNat = .ok { s with hist := History.back s.hist } ∧
+    update w s 'l'.toNat = .ok { s with hist := History.forward s.hist } := by
+  constructor
+  · rw [update_normal w s _ hm (by decide) (by decide) (by decide) (by decide), keySwitch_h]
+  · rw [update_normal w s _ hm (by decide) (by decide) (by decide) (by decide), keySwitch_l]
+
+/-- Space opens the highlighted item on a new page: exactly one page is pushed right after the
+    current one and the forward history is dropped; on an empty page nothing happens. -/
+theorem space_opens (w : World) (s s' : State) (hi : Inv s) (hm : s.mode = .normal)
+    (hs : update w s ' '.toNat = .ok s') :
+    (currentItem s = .ok none → s' = s) ∧
+    (∀ x, currentItem s = .ok (some x) →
+      s'.hist.index = s.hist.index + 1 ∧ s'.hist.elements.length = s.hist.index + 2 ∧
+      s'.hist.elements.take (s.hist.index + 1) = s.hist.elements.take (s.hist.index + 1) ∧ s'.mode = .normal) := by
+  rw [update_normal w s _ hm (by decide) (by decide) (by decide) (by decide)] at hs
+  have hok : HistOk s := hi.1 (by rw [hm]; decide)
+  constructor
+  · intro hc
+    rw [keySwitch_space_none w s hc] at hs
+    cases hs; rfl
+  · intro x hc
+    rw [keySwitch_space_some w s x hc] at hs
+    obtain ⟨s1, e1, e2, e3, _⟩ := switchTo_item w s x (.inr hok)
+    rw [e1] at hs
+    cases hs
+    obtain ⟨a, b, c⟩ := e2.2 hok
+    exact ⟨a, b, c, by rw [e3, hm]⟩
+
+/-- Digits enter selection mode and accumulate; a digit string is what selection mode holds. -/
+theorem digit_selects (w : World) (s : State) (d : Nat) (hm : s.mode = .normal) (hd : '0'.toNat ≤ d ∧ d ≤ '9'.toNat) :
+    update w s d = .ok { s with buffer := [Char.ofNat d], mode := .selection } := by
+  have e0 : '0'.toNat = 48 := by decide
+  have e9 : '9'.toNat = 57 := by decide
+  have ec : ':'.toNat = 58 := by decide
+  rw [e0, e9] at hd
+  unfold update
+  have h1 : d ≠ 27 := by omega
+  have h2 : d ≠ 127 := by omega
+  have h3 : d ≠ 58 := by omega
+  simp [hm, h1, h2, h3, e0, e9, ec, hd.1, hd.2]
+
+/-- A number that opens nothing (0, too large, out of range, empty page) returns to normal mode
+    and leaves the history alone. -/
+theorem bad_number_cancels (w : World) (s s' : State) (hm : s.mode = .selection)
+    (hnone : ∀ x n, currentItem s = .ok (some x) → atoi s.buffer = some n → selectLink x n = none)
+    (hs : update w s 13 = .ok s') :
+    s' = { s with buffer := [], mode := .normal } := by
+  have _ := hnone
+  have e0 : '0'.toNat = 48 := by decide
+  have e9 : '9'.toNat = 57 := by decide
+  have ec : ':'.toNat = 58 := by decide
+  have ed : '.'.toNat = 46 := by decide
+  unfold update at hs
+  simp only [hm, e0, e9, ec, ed] at hs
+  simp at hs
+  split at hs
+  · cases hs
+  · split at hs <;> cases hs <;> rfl
+
+/-- `atoi` of an over-long digit string is `none` (the overflow that used to panic), and link
+    numbers below 1 select nothing. -/
+theorem overlong_number (b : Str) (h : 2 ^ 63 ≤ b.foldl (fun acc c => 10 * acc + (c.toNat - '0'.toNat)) 0) :
+    atoi b = none := by
+  unfold atoi
+  simp only
+  rw [if_neg (by omega)]
+
+theorem number_zero_selects_nothing (x : T) (n : Int) (h : n < 1) : selectLink x n = none := by
+  have hlt : n - 1 < 0 := by omega
+  have hp : ∀ bl : List Str, Select.post bl ([] : List Unit) n = .none := by
+    intro bl; simp [Select.post, hlt]
+  have ha : ∀ bl : List Str, Select.actor bl n = .none := by
+    intro bl; simp [Select.actor, hlt]
+  cases x <;> simp only [selectLink, hp, ha]
+  split <;> rfl
+
 end C07
